@@ -66,6 +66,15 @@ static void lwe_round_trips(int n, const std::vector<long>& Ms, VhRng& rng, int 
             lweSymEncrypt(c, mub, 1.0 / (20.0 * Mb), key); emit_lwe("lenc", n, (int)Mb, mb, 5, (uint32_t)mub, c, key, 0);
         }
     }
+    // noise levels that are both tiny and closer to each other than 1e-9 (message spaces 2^26 and 2^30, each at its decryptable maximum M*alpha = 1/20),
+    // alternating: the second must not inherit the first one's level
+    for (int q = 0; q < 16 * per; q++) {
+        long Ma = 1L << 26, Mb = 1L << 30;
+        int ma = (int)rng.below((uint32_t)Ma), mb = (int)rng.below((uint32_t)Mb);
+        Torus32 mua = modSwitchToTorus32(ma, (int32_t)Ma), mub = modSwitchToTorus32(mb, (int32_t)Mb);
+        lweSymEncrypt(c, mua, 1.0 / (20.0 * Ma), key); emit_lwe("lenc", n, (int)Ma, ma, 4, (uint32_t)mua, c, key, 0);
+        lweSymEncrypt(c, mub, 1.0 / (20.0 * Mb), key); emit_lwe("lenc", n, (int)Mb, mb, 5, (uint32_t)mub, c, key, 0);
+    }
     delete_LweSample(c); delete_LweKey(key); delete_LweParams(par);
 }
 static void gate_bits(int lambda, int reps) {
